@@ -20,7 +20,7 @@ pub fn seed() -> u64 {
 }
 
 /// Values of the type universe: hashable, buildable from a seed, clone-counted through `C`.
-pub trait Val: Debug + Send + Sync + 'static + Sized {
+pub trait Val: Debug + 'static + Sized {
     fn hashv(&self) -> u64;
     fn build(seed: u64) -> Self;
 }
@@ -140,6 +140,62 @@ impl Val for Ck {
     }
     fn build(seed: u64) -> Self {
         Ck::mk((mixf(seed, 25) % 11) as i64)
+    }
+}
+
+/// A value that is neither `Send` nor `Clone` (C19: the non-spawning macros must accept it).
+pub struct Ns(pub i64, std::rc::Rc<()>);
+impl Debug for Ns {
+    fn fmt(&self, f: &mut std::fmt::Formatter<'_>) -> std::fmt::Result {
+        write!(f, "Ns({})", self.0)
+    }
+}
+impl Default for Ns {
+    fn default() -> Self {
+        Ns(0, std::rc::Rc::new(()))
+    }
+}
+impl Val for Ns {
+    fn hashv(&self) -> u64 {
+        mixf(self.0 as u64, 26)
+    }
+    fn build(seed: u64) -> Self {
+        Ns((mixf(seed, 27) % 13) as i64, std::rc::Rc::new(()))
+    }
+}
+/// A move-only value (`Send`, not `Clone`).
+pub struct Mv(pub i64);
+impl Debug for Mv {
+    fn fmt(&self, f: &mut std::fmt::Formatter<'_>) -> std::fmt::Result {
+        write!(f, "Mv({})", self.0)
+    }
+}
+impl Default for Mv {
+    fn default() -> Self {
+        Mv(0)
+    }
+}
+impl Val for Mv {
+    fn hashv(&self) -> u64 {
+        mixf(self.0 as u64, 28)
+    }
+    fn build(seed: u64) -> Self {
+        Mv((mixf(seed, 29) % 13) as i64)
+    }
+}
+/// callback over a mutable borrow of a caller's local: changes it in place
+pub fn inc_mut(id: u32) -> impl Fn(&mut i64) -> i64 + Copy + Send + Sync + 'static {
+    move |x: &mut i64| {
+        call(id, mixf(*x as u64, 30));
+        *x = x.wrapping_add(1);
+        *x
+    }
+}
+/// callback over a shared borrow of a caller's local
+pub fn rd(id: u32) -> impl Fn(&i64) -> i64 + Copy + Send + Sync + 'static {
+    move |x: &i64| {
+        call(id, mixf(*x as u64, 32));
+        *x
     }
 }
 
